@@ -239,6 +239,9 @@ impl Prop for C01 {
     fn id(&self) -> &'static str {
         "C01"
     }
+    fn fuzz_facet(&self) -> Option<&'static str> {
+        Some("C01")
+    }
     fn profiles(&self, tier: Tier) -> Vec<(Profile, usize)> {
         vec![(p_rewind(), tier.pick(320, 4000)), (p_ctx(), tier.pick(80, 1000))]
     }
@@ -471,6 +474,9 @@ impl Prop for C05 {
     fn id(&self) -> &'static str {
         "C05"
     }
+    fn fuzz_facet(&self) -> Option<&'static str> {
+        Some("C05")
+    }
     fn profiles(&self, tier: Tier) -> Vec<(Profile, usize)> {
         vec![(p_eoi(), tier.pick(300, 3500))]
     }
@@ -609,6 +615,9 @@ impl Prop for C06 {
     fn id(&self) -> &'static str {
         "C06"
     }
+    fn fuzz_facet(&self) -> Option<&'static str> {
+        Some("C06")
+    }
     fn profiles(&self, tier: Tier) -> Vec<(Profile, usize)> {
         let mut rw = p_unicode();
         rw.name = "unicode-rewind";
@@ -672,6 +681,9 @@ pub struct C07;
 impl Prop for C07 {
     fn id(&self) -> &'static str {
         "C07"
+    }
+    fn fuzz_facet(&self) -> Option<&'static str> {
+        Some("C07")
     }
     fn profiles(&self, tier: Tier) -> Vec<(Profile, usize)> {
         let mut f = p_actions();
@@ -781,6 +793,9 @@ impl Prop for C09 {
     fn id(&self) -> &'static str {
         "C09"
     }
+    fn fuzz_facet(&self) -> Option<&'static str> {
+        Some("C09")
+    }
     fn profiles(&self, tier: Tier) -> Vec<(Profile, usize)> {
         let n = tier.pick(80, 800);
         vec![
@@ -858,6 +873,9 @@ pub struct C10;
 impl Prop for C10 {
     fn id(&self) -> &'static str {
         "C10"
+    }
+    fn fuzz_facet(&self) -> Option<&'static str> {
+        Some("C10")
     }
     fn profiles(&self, tier: Tier) -> Vec<(Profile, usize)> {
         let mut acc = p_actions();
